@@ -10,12 +10,13 @@ round4='--round4' in sys.argv
 round5='--round5' in sys.argv
 round6='--round6' in sys.argv
 round7='--round7' in sys.argv
+round8='--round8' in sys.argv
 flt=[a for a in sys.argv[1:] if not a.startswith('--')]
 jobs=[]
-base='/verif/seeded' if stored else ('/tmp/seed7-out' if round7 else '/tmp/seed6-out' if round6 else '/tmp/seed5-out' if round5 else '/tmp/seed4-out' if round4 else '/tmp/seed3-out' if round3 else '/tmp/seed2-out' if round2 else '/tmp/seed-out')
+base='/verif/seeded' if stored else ('/tmp/seed8-out' if round8 else '/tmp/seed7-out' if round7 else '/tmp/seed6-out' if round6 else '/tmp/seed5-out' if round5 else '/tmp/seed4-out' if round4 else '/tmp/seed3-out' if round3 else '/tmp/seed2-out' if round2 else '/tmp/seed-out')
 for d in sorted(os.listdir(base)):
     if stored:
-        m=re.match(r'(C\d\d)-([abcdefghijklmn])$',d)
+        m=re.match(r'(C\d\d)-([abcdefghijklmnop])$',d)
         if not m: continue
         pid,x=m.groups(); path=os.path.join(base,d)
         jobs.append((pid,x,path))
@@ -48,7 +49,7 @@ with concurrent.futures.ThreadPoolExecutor(5) as ex:
         confirmed=bool(m) and m.group(1)=='pass' and m.group(2)=='FAIL' and m.group(3)=='pass'
         caught=re.findall(r'CAUGHT by (C\d\d): *(.*)',out)
         missed=re.findall(r'MISSED by (C\d\d)',out)
-        dst='/verif/seeded/%s-%s'%(pid,({'a':'m','b':'n'}[x] if round7 else {'a':'k','b':'l'}[x] if round6 else {'a':'i','b':'j'}[x] if round5 else {'a':'g','b':'h'}[x] if round4 else {'a':'e','b':'f'}[x] if round3 else {'a':'c','b':'d'}[x] if round2 else x))
+        dst='/verif/seeded/%s-%s'%(pid,({'a':'o','b':'p'}[x] if round8 else {'a':'m','b':'n'}[x] if round7 else {'a':'k','b':'l'}[x] if round6 else {'a':'i','b':'j'}[x] if round5 else {'a':'g','b':'h'}[x] if round4 else {'a':'e','b':'f'}[x] if round3 else {'a':'c','b':'d'}[x] if round2 else x))
         if not stored:
             if not confirmed:
                 print('NOT CONFIRMED - not stored'); continue
